@@ -203,6 +203,7 @@ def r_group_name_generator(ctx: Ctx, rule: str):
             # the name is computed from the counter before the increment (or the increment precedes consistently for every call)
             names = ctx.nodes(f, lambda n: n.op == "assign" and isinstance(n.ast.value, ast.JoinedStr))
     w = [e for e in ctx.effects(fields=["_start_calls"], kinds=["assign", "aug"])]
+    rep.ob(rule, "the start counter is initialised by a constructor", any(ctx.hosts(e.node.func) <= {"__init__"} and e.kind == "assign" for e in w), construct="self._start_calls = 0 in __init__")
     for e in w:
         hosts = ctx.hosts(e.node.func)
         rep.ob(rule, "the start counter is written only by the constructor (=0) and start (+1)", hosts <= {"__init__", "start"}, node=e.node)
@@ -270,6 +271,7 @@ def r_id_discipline(ctx: Ctx, rule: str):
                    "wrapper argument, task name and return value")
     w = [e for e in ctx.effects(fields=["_num_started"], kinds=["assign", "aug"]) if e.path.endswith("._num_started")]
     rep.floor(rule, "writes of _num_started", len(w), 2)
+    rep.ob(rule, "the id counter is initialised by the constructor", any(ctx.hosts(e.node.func) <= {"__init__"} and e.kind == "assign" for e in w), construct="self._num_started = 0 in __init__")
     for e in w:
         hosts = ctx.hosts(e.node.func)
         rep.ob(rule, "_num_started is written only by the constructor and _start_task", hosts <= {"__init__", "_start_task"} and ctx.in_pool(e.node.func), node=e.node,
